@@ -17,6 +17,18 @@ import (
 	"verif/harness/lib"
 )
 
+// nFor picks a case count by tier; the search tier (run after a model/implementation
+// disagreement that no oracle explains) concentrates on the cheap hand-made cases.
+func nFor(c *Ctx, quick, thorough, search int) int {
+	switch c.Tier {
+	case "quick":
+		return quick
+	case "search":
+		return search
+	}
+	return thorough
+}
+
 func classCode(cls string) int64 {
 	switch cls {
 	case "ok":
